@@ -971,7 +971,8 @@ func c16Converters(c *Check) {
 			temp := -1
 			for _, d := range dec {
 				for _, af := range atomsOnEdge(d.Cond, d.Succ) {
-					if call, ok := ast.Unparen(af.E).(*ast.CallExpr); ok {
+					// a named boolean (`temporary := IsTemporaryOrUnspec(err); if temporary`) stands for its definition
+					if call, ok := ast.Unparen(resolveLocal(info, fi.Decl.Body, af.E)).(*ast.CallExpr); ok {
 						q := qname(callee(info, call))
 						if q == exterrPkg+".IsTemporary" || q == exterrPkg+".IsTemporaryOrUnspec" {
 							usedPred[q] = true
